@@ -310,49 +310,6 @@ func c20Mask(c *fw.Ctx) {
 			}
 		}
 	}
-	if len(bits) == 0 && len(adds) == 0 {
-		// no accumulator at all: does success depend on anything recorded while visiting the caveats?
-		if tbl, err := fw.ExtractTable(fn, fw.ErrIndex(fn)); err == nil {
-			stateless := ""
-			nAccept := 0
-			for _, r := range tbl.Rows {
-				if r.Outcome != "accept" {
-					continue
-				}
-				nAccept++
-				for _, term := range r.Cond {
-					carried := false
-					for _, l := range term {
-						// a loop-carried value other than the position in the caveat list
-						if strings.Contains(l.Atom, "phi(") && !strings.Contains(l.Atom, "builtin.len(") {
-							carried = true
-						}
-						// ... or an aggregate / object that the loop can write to (an array of flags, a
-						// map, a set, the fields of a verifier object)
-						if strings.Contains(l.Atom, "local:") || strings.Contains(l.Atom, "makemap") || strings.Contains(l.Atom, "makeslice") || strings.Contains(l.Atom, "recv.") {
-							carried = true
-						}
-					}
-					if !carried {
-						stateless = c.P.Pos(fw.InstrPos(r.Ret))
-					}
-				}
-			}
-			if nAccept > 0 && stateless != "" {
-				c.Fail(rule, "the caveat classes are recorded idempotently", stateless, "verifyCaveats returns success without consulting anything recorded while visiting the caveats: a token that lacks a required caveat (even a bare macaroon signed with the server key) validates")
-				return
-			}
-		}
-	}
-	if len(bits) == 0 {
-		if len(adds) > 0 {
-			c.Fail(rule, "the caveat classes are recorded idempotently", adds[0].pos, fmt.Sprintf("verifyCaveats counts satisfied caveats (%d additions into a loop-carried counter, no bit set): the count is reached by repeating one class, so a token lacking a required caveat can validate", len(adds)))
-		} else {
-			c.Undecided(rule, "mask contributions", "verifyCaveats has no bit-mask accumulator the rule recognises")
-		}
-		return
-	}
-	c.Ok(rule, "the caveat classes are recorded idempotently", bits[0].pos, fmt.Sprintf("%d OR contributions", len(bits)))
 	every := func(d fw.DNF, f func(t fw.Term) bool) bool {
 		if len(d) == 0 {
 			return false
@@ -397,6 +354,94 @@ func c20Mask(c *fw.Ctx) {
 			return false
 		}},
 	}
+	// a verifier that records the classes in boolean flags instead of bits: a loop-carried
+	// boolean that becomes true under a class condition records that class. When at least one
+	// class is recorded this way, a class without any recorder is not required at all.
+	if len(bits) == 0 && len(adds) == 0 {
+		recorded := map[string]string{}
+		for _, b := range fn.Blocks {
+			for _, ins := range b.Instrs {
+				phi, isPhi := ins.(*ssa.Phi)
+				if !isPhi {
+					break
+				}
+				if bt, isB := phi.Type().Underlying().(*types.Basic); !isB || bt.Kind() != types.Bool {
+					continue
+				}
+				for i, e := range phi.Edges {
+					cst, isC := e.(*ssa.Const)
+					if !isC || cst.Value == nil || cst.Value.String() != "true" || i >= len(b.Preds) {
+						continue
+					}
+					here, okC := fw.CondAt(nil, b.Preds[i])
+					if !okC {
+						continue
+					}
+					for _, cl := range classes {
+						if every(here, cl.is) {
+							recorded[cl.name] = c.P.Pos(fw.InstrPos(b.Preds[i].Instrs[len(b.Preds[i].Instrs)-1]))
+						}
+					}
+				}
+			}
+		}
+		if len(recorded) > 0 {
+			for _, cl := range classes {
+				construct := "a verified " + cl.name + " is recorded"
+				if pos, ok := recorded[cl.name]; ok {
+					c.Ok(rule, construct, pos, "boolean flag")
+				} else if unknownContribution == "" {
+					c.Fail(rule, construct, c.P.Pos(fn.Pos()), fmt.Sprintf("the verifier records the caveat classes in boolean flags (%d of 3 found) but nothing records a valid %s: a token lacking it validates", len(recorded), cl.name))
+				} else {
+					c.Undecided(rule, construct, "no flag for the "+cl.name+" was recognised"+unknownContribution)
+				}
+			}
+			return
+		}
+	}
+	if len(bits) == 0 && len(adds) == 0 {
+		// no accumulator at all: does success depend on anything recorded while visiting the caveats?
+		if tbl, err := fw.ExtractTable(fn, fw.ErrIndex(fn)); err == nil {
+			stateless := ""
+			nAccept := 0
+			for _, r := range tbl.Rows {
+				if r.Outcome != "accept" {
+					continue
+				}
+				nAccept++
+				for _, term := range r.Cond {
+					carried := false
+					for _, l := range term {
+						// a loop-carried value other than the position in the caveat list
+						if strings.Contains(l.Atom, "phi(") && !strings.Contains(l.Atom, "builtin.len(") {
+							carried = true
+						}
+						// ... or an aggregate / object that the loop can write to (an array of flags, a
+						// map, a set, the fields of a verifier object)
+						if strings.Contains(l.Atom, "local:") || strings.Contains(l.Atom, "makemap") || strings.Contains(l.Atom, "makeslice") || strings.Contains(l.Atom, "recv.") {
+							carried = true
+						}
+					}
+					if !carried {
+						stateless = c.P.Pos(fw.InstrPos(r.Ret))
+					}
+				}
+			}
+			if nAccept > 0 && stateless != "" {
+				c.Fail(rule, "the caveat classes are recorded idempotently", stateless, "verifyCaveats returns success without consulting anything recorded while visiting the caveats: a token that lacks a required caveat (even a bare macaroon signed with the server key) validates")
+				return
+			}
+		}
+	}
+	if len(bits) == 0 {
+		if len(adds) > 0 {
+			c.Fail(rule, "the caveat classes are recorded idempotently", adds[0].pos, fmt.Sprintf("verifyCaveats counts satisfied caveats (%d additions into a loop-carried counter, no bit set): the count is reached by repeating one class, so a token lacking a required caveat can validate", len(adds)))
+		} else {
+			c.Undecided(rule, "mask contributions", "verifyCaveats has no bit-mask accumulator the rule recognises")
+		}
+		return
+	}
+	c.Ok(rule, "the caveat classes are recorded idempotently", bits[0].pos, fmt.Sprintf("%d OR contributions", len(bits)))
 	required := int64(0)
 	decided := true
 	for _, cl := range classes {
@@ -446,7 +491,15 @@ func c20Mask(c *fw.Ctx) {
 			unknownBit |= b.val
 		}
 	}
-	c.Check(unknownBit != 0 && unknownBit&required == 0, rule, "an unknown caveat sets a bit outside the required ones", c.P.Pos(fn.Pos()), fmt.Sprint(unknownBit), fmt.Sprintf("unknown-caveat bit %d overlaps the required mask %d (or is missing)", unknownBit, required))
+	switch {
+	case unknownBit != 0 && unknownBit&required == 0:
+		c.Ok(rule, "an unknown caveat sets a bit outside the required ones", c.P.Pos(fn.Pos()), fmt.Sprint(unknownBit))
+	case unknownBit != 0:
+		c.Fail(rule, "an unknown caveat sets a bit outside the required ones", c.P.Pos(fn.Pos()), fmt.Sprintf("unknown-caveat bit %d overlaps the required mask %d", unknownBit, required))
+	default:
+		// no bit at all: an unknown caveat may be refused on the spot instead
+		c.Undecided(rule, "an unknown caveat sets a bit outside the required ones", "no bit is set for an unknown caveat; whether it is refused another way was not traced")
+	}
 	// success constant
 	tbl, err := fw.ExtractTable(fn, fw.ErrIndex(fn))
 	if err != nil {
